@@ -59,7 +59,7 @@ def setup(ctx: Any) -> None:
 
 
 PRE_CALLS = ["get_gpu_kernel_breakdown", "get_comm_comp_overlap", "get_idle_time_breakdown", "get_memory_bw_time_series", "get_temporal_breakdown",
-             "get_queue_length_time_series", "get_cuda_kernel_launch_stats"]
+             "get_queue_length_time_series", "get_cuda_kernel_launch_stats", "get_gpu_kernels_with_user_annotations", "critical_path_analysis"]
 
 
 def pre_call(ta, name: str, ranks) -> None:  # noqa: ANN001
@@ -74,6 +74,16 @@ def pre_call(ta, name: str, ranks) -> None:  # noqa: ANN001
             ta.get_cuda_kernel_launch_stats(ranks=ranks, visualize=False)
         elif name == "get_gpu_kernel_breakdown":
             ta.get_gpu_kernel_breakdown(visualize=False, include_memory_kernels=True)
+        elif name == "get_gpu_kernels_with_user_annotations":
+            for r in ranks:
+                ta.get_gpu_kernels_with_user_annotations(r)
+        elif name == "critical_path_analysis":
+            # a window that covers only part of the rank's activity, if the trace has an annotation to name it
+            st = ta.t.symbol_table.get_sym_table()
+            for ann in ("fwd", "bwd", "opt", "loss", "data", "ProfilerStep"):
+                if any(isinstance(x, str) and x.startswith(ann) for x in st):
+                    ta.critical_path_analysis(rank=ranks[0], annotation=ann, instance_id=0)
+                    break
         else:
             getattr(ta, name)(visualize=False)
     except Exception:  # noqa: BLE001
@@ -81,7 +91,7 @@ def pre_call(ta, name: str, ranks) -> None:  # noqa: ANN001
 
 
 def gen_case(rnd, tier: str, i: Any) -> Dict[str, Any]:
-    c = gen_int.gen_case(rnd, tier)
+    c = gen_int.gen_case(rnd, tier, annotations=rnd.random() < 0.5)
     c["pre_calls"] = rnd.sample(PRE_CALLS, rnd.choice([0, 0, 1, 2, 3]))
     return c
 
